@@ -69,6 +69,8 @@ def build(v, env, ghost_fn):
         if '$default' in v:
             from fpy2.utils import DEFAULT
             return DEFAULT
+        if '$numstr' in v:
+            return build_numstr(v['$numstr'])
         if '$opaque' in v:
             tag = v['$opaque']
             if 'rng' in tag or 'Random' in tag:
@@ -86,6 +88,34 @@ def build(v, env, ghost_fn):
                     pass
             return obj
     raise ValueError(f'cannot build {v!r}')
+
+
+def digit_string(val, length, base):
+    """the base-`base` digit string of exactly `length` digits (leading zeros) whose positional value is `val`"""
+    if val < 0 or length < 0 or val >= base ** length:
+        raise ValueError(f'non-standard digit string: value {val} does not fit {length} base-{base} digits')
+    out = ''
+    for _ in range(length):
+        out = '0123456789abcdef'[val % base] + out
+        val //= base
+    return out
+
+
+def build_numstr(d):
+    """rebuild the text of a symbolic numeral spelling from its decomposition (pyvc/strings.py)"""
+    kind = d.get('kind')
+    if kind == 'none':
+        return '0'
+    if not d['matches']:
+        return '?'              # any string outside the grammar
+    base, prefix, marker = (10, '', 'e') if kind == 'dec' else (16, '0x', 'p')
+    sg = ['', '+', '-']
+    out = sg[d['sign']] + prefix + digit_string(d['I'][0], d['I'][1], base)
+    if d['has_frac']:
+        out += '.' + digit_string(d['F'][0], d['F'][1], base)
+    if d['has_exp']:
+        out += marker + sg[d['esign']] + digit_string(d['E'][0], d['E'][1], 10)
+    return out
 
 
 def make_ghost(ghost):
